@@ -18,6 +18,11 @@ func fnCopy(ctx *cmdContext, args map[string]any) (output respValue, err error) 
 		return
 	}
 
+	if sourceKeyName == destKeyName {
+		output.data = respErrorString("ERR source and destination objects are the same")
+		return
+	}
+
 	result := ctx.dsc.copy(sourceKeyName, destKeyName, dds, replace)
 	if result == RESULT_COMPLETED {
 		output.data = respInt(1)
